@@ -451,7 +451,7 @@ def check_case(ctx, case, tmp=TMP):
                 ctx.count("md=" + v["t"] + ("/special" if k in SPECIAL else "") + ("/slash" if "/" in k else ""))
     rec = {"case": case}
     if not r["model_holds"] and r["model"].get("error") is None:
-        ctx.diverge(rec, "theorem toH5_specWF contradicted by the driver", tags)
+        ctx.diverge(rec, "holds is false of toH5 on the layouts found in the file (layout contract broken, or toH5_specWF contradicted)", tags)
     if not r["holds"]:
         ctx.fail(rec, "C04." + str(r["clause"]), tags, detail={"raw": raw, "decode": r.get("decode")})
     elif not r["agree"]:
